@@ -154,8 +154,11 @@ def materialise(spec, prefix, kind="vcf.gz+tbi", block_size=0xFF00, records=None
             if p.exists():
                 p.unlink()
         bgzf_write(path, text, block_size)
-        if kind.endswith("tbi"):
+        if kind.endswith("tbi") or kind.endswith("tbi0"):
             pysam.tabix_index(str(path), preset="vcf", force=True)
+            if kind.endswith("tbi0"):
+                import indexlib          # old-style tabix index: no per-contig record counts
+                indexlib.strip_tbi_counts(path)
         else:
             pysam.tabix_index(str(path), preset="vcf", force=True, csi=True, min_shift=min_shift)
         return path
